@@ -1,6 +1,7 @@
 from core import Unit as U
 HASH = ["secp256k1_sha256_write", "secp256k1_sha256_finalize"]
 CTXDEF = ["USE_EXTERNAL_DEFAULT_CALLBACKS"]
+ORV = ["secp256k1_scalar_inverse_var", "secp256k1_scalar_mul", "secp256k1_ecmult", "secp256k1_gej_eq_x_var"]
 def CX(name, entry, functions, **kw):
     kw.setdefault("timeout", 600); kw.setdefault("unwind", 70); kw.setdefault("min_obl", 5)
     return U("C20." + name, ["C20"], "harness/C20/ctx.c", entry, defs=CTXDEF, functions=functions, **kw)
@@ -14,4 +15,26 @@ UNITS = [
        replace=HASH + ["secp256k1_ecmult_gen", "secp256k1_ge_set_gej"], assumed=["secp256k1_ecmult_gen", "secp256k1_ge_set_gej"],
        note="hash stream contracts (C05) and frame contracts of ecmult_gen / ge_set_gej replace the calls; the frame 'writes only ecmult_gen_ctx' is over the real blind code"),
     CX("ctx_setters", "h_ctx_setters", ["secp256k1_context_set_illegal_callback", "secp256k1_context_set_error_callback", "secp256k1_context_set_sha256_compression", "secp256k1_selftest_sha256"]),
+    # (ii) static-context gates: all 19 entry points that need ecmult_gen
+    U("C20.gate_core", ["C20"], "harness/C20/gates.c", "h_gate_core", unwind=70, timeout=600, min_obl=20,
+      functions=["secp256k1_ec_pubkey_create", "secp256k1_ecdsa_sign", "secp256k1_ecdsa_sign_recoverable", "secp256k1_keypair_create", "secp256k1_schnorrsig_sign32", "secp256k1_schnorrsig_sign_custom", "secp256k1_ellswift_create"]),
+    U("C20.gate_musig", ["C20"], "harness/C20/gates.c", "h_gate_musig", unwind=200, timeout=600, min_obl=10,
+      functions=["secp256k1_musig_nonce_gen", "secp256k1_musig_nonce_gen_counter"]),
+    U("C20.gate_zkp1", ["C20"], "harness/C20/gates.c", "h_gate_zkp1", unwind=200, timeout=600, min_obl=15,
+      functions=["secp256k1_ecdsa_s2c_sign", "secp256k1_ecdsa_anti_exfil_signer_commit", "secp256k1_ecdsa_adaptor_encrypt", "secp256k1_ecdsa_adaptor_recover", "secp256k1_generator_generate_blinded", "secp256k1_pedersen_commit"]),
+    U("C20.gate_zkp2", ["C20"], "harness/C20/gates.c", "h_gate_zkp2", unwind=70, timeout=600, min_obl=15,
+      functions=["secp256k1_rangeproof_sign", "secp256k1_rangeproof_rewind", "secp256k1_surjectionproof_generate", "secp256k1_whitelist_sign", "secp256k1_schnorrsig_aggverify"]),
+    # (iii) results under arbitrary initial static state
+    U("C20.static_state_sig", ["C20"], "harness/C20/state.c", "h_static_state_sig", unwind=82, timeout=600, min_obl=8, replay=True,
+      functions=["secp256k1_ecdsa_signature_serialize_der", "secp256k1_ecdsa_sig_serialize", "secp256k1_ecdsa_signature_serialize_compact"],
+      note="DFCC havocs every static-lifetime object at entry: the functional postcondition holds for every prior static state"),
+    # (iv) const-context frames
+    U("C20.frame_ecdsa_verify", ["C20"], "harness/C20/frames.c", "h_frame_ecdsa_verify", unwind=70, timeout=600, min_obl=20,
+      replace=ORV, assumed=ORV, functions=["secp256k1_ecdsa_verify"]),
+    U("C20.frame_pubkey_parse", ["C20"], "harness/C20/frames.c", "h_frame_pubkey_parse", unwind=72, timeout=900, min_obl=20, slice_formula=True,
+      functions=["secp256k1_ec_pubkey_parse"]),
+    U("C20.frame_pubkey_serialize", ["C20"], "harness/C20/frames.c", "h_frame_pubkey_serialize", unwind=82, timeout=600, min_obl=20, slice_formula=True,
+      functions=["secp256k1_ec_pubkey_serialize"]),
+    U("C20.frame_schnorrsig_verify", ["C20"], "harness/C20/frames.c", "h_frame_schnorrsig_verify", unwind=70, timeout=900, min_obl=20, slice_formula=True,
+      replace=HASH + ["secp256k1_ecmult", "secp256k1_ge_set_gej_var"], assumed=["secp256k1_ecmult", "secp256k1_ge_set_gej_var"], functions=["secp256k1_schnorrsig_verify"]),
 ]
